@@ -129,5 +129,29 @@ def fill(claim, na):
           "Equality with the brute-force hull is not decided.",
           "x-sorted input for the chains; real-number orientation.",
           "DESIGN.md 3/C18")
-    for pid in ["C08", "C10", "C12", "C14"]:
+    claim("C08", "other", "provenance / event-counting over the filter loops + guard accept-sets + E1 link + F/R index-space type system over demos/*.py",
+          "Decides the structural part for all inputs: each of the five filter stages emits only elements of its knees argument, at "
+          "most one per input position / cluster, in increasing position order (so each stage returns a subsequence); the "
+          "worst-knee filter keeps only h <= (or <) the running minimum, so heights are non-increasing from there on; hull-mode "
+          "cluster filtering links; in the seven pipeline demos reduced-space knees are filtered against the reduced curve and "
+          "mapped before they are used against the original curve. Completion for every configuration and coordinate equality are "
+          "not decided here (see C01/C02/C07/C09).",
+          "Cluster labels are contiguous non-decreasing runs (C11); demos are the only in-repo composition of the stages.",
+          "DESIGN.md 3/C08")
+    claim("C12", "other", "gated value numbering of the per-cluster loop bodies (4 modes + corner variant) + nullness summaries + normal-form equality of the ranking score",
+          "Decides the structural part for all inputs: clusters 0..max visited once; in left/linear/right modes exactly one knee per "
+          "cluster, equal to members[argmax(rank(smooth_ranking(points, members, mode)))] (members[0] for singletons), with "
+          "smooth_ranking = R2 fit of the selected side(s) x |peak - y_k| normalised by its sum; in hull mode at most one per "
+          "cluster, none when the span holds no hull index, singleton iff in hull; corner variant keeps the argmax of the "
+          "corner-triangle score; every emitted value is an element of knees; the hull path links.",
+          "Numerical scores and tie-breaking not decided; argsort is a permutation.",
+          "DESIGN.md 3/C12")
+    claim("C14", "other", "gated value numbering of the candidate / insertion loops + structural check of the union tail + sibling comparison of the two variants",
+          "Decides the structural part for all inputs: candidates are exactly the consecutive retained pairs (or knee gaps incl. "
+          "both curve ends) whose normalised width exceeds 2*tx and height exceeds ty; ceil(w/(2*tx)) points at stride "
+          "int((right-left)/k) from left; knees and candidates are mapped with rdp.mapping first; the union is concatenated, cast "
+          "to int, de-duplicated and passed through filter_worst_knees on every path; extremes are [0, n-1] in both variants.",
+          "Ranges of x and y non-zero; numerical width/height tests not decided.",
+          "DESIGN.md 3/C14")
+    for pid in ["C10"]:
         na(pid, PENDING)
